@@ -65,7 +65,10 @@ where
   /// On insert, add the new item to the clock.
   fn on_admit(&self, key: &K, cost: u64) -> AdmissionDecision<K> {
     let mut state = self.state.lock();
-    if !state.items.contains_key(key) {
+    if let Some(entry) = state.items.get_mut(key) {
+      // Re-admission: record the new cost; position and reference bit are kept.
+      entry.cost = cost;
+    } else {
       state.items.insert(
         key.clone(),
         ClockEntry {
